@@ -8,11 +8,14 @@ import (
 	"os/exec"
 	"path/filepath"
 	"strconv"
+	"strings"
 	"sync"
 	"testing"
 	"time"
 
+	assettypes "github.com/comdex-official/comdex/x/asset/types"
 	bandtypes "github.com/comdex-official/comdex/x/bandoracle/types"
+	lendtypes "github.com/comdex-official/comdex/x/lend/types"
 	liqV2types "github.com/comdex-official/comdex/x/liquidationsV2/types"
 	sdk "github.com/cosmos/cosmos-sdk/types"
 	govv1beta1 "github.com/cosmos/cosmos-sdk/x/gov/types/v1beta1"
@@ -122,6 +125,16 @@ func init() {
 		e.rnd = rng("C16-lend", u.Variant)
 		e.c.Tape = &sim.Tape{}
 		for i := 0; i < steps && !e.panicked; i++ {
+			// governance adds a third and a fourth pool in the middle of the history
+			if i == steps/3 || i == 2*steps/3 {
+				nm := [][2]string{{"evmos", lendtypes.ModuleAcc6}, {"weth", lendtypes.ModuleAcc9}}[map[bool]int{true: 0, false: 1}[i == steps/3]]
+				if err := c16Env(e.c, "lend-add-pool", nm[0], nm[1]); err != nil {
+					rec.Note("lend tape: adding pool " + nm[0] + " failed: " + err.Error())
+				} else {
+					rec.Count("lend_tape_pools_added_by_governance", 1)
+					rec.Count("lend_tape_pairs_after_adding_a_pool", int64(len(e.c.App.LendKeeper.GetLendPairs(e.c.Ctx()))))
+				}
+			}
 			if e.rnd.Intn(100) < 30 {
 				e.blockStep()
 			} else {
@@ -266,6 +279,35 @@ func c16ApplyEnv(c *sim.Chain, rc sim.TapeRec) error {
 		k.SetFetchPriceResult(c.Ctx(), bandtypes.OracleRequestID(id), bandtypes.FetchPriceResult{Rates: rates})
 		k.SetLastFetchPriceID(c.Ctx(), bandtypes.OracleRequestID(id))
 		return nil
+	case "lend-add-pool":
+		// governance adds a lend pool (the keeper function behind AddAssetRatesPoolPairsProposal): new main asset with its
+		// cToken, rate parameters, the pool, its pairs and one cross-pool pair per existing pool in each direction
+		name, module := rc.Args[0], rc.Args[1]
+		ctx := c.Ctx()
+		ak := c.App.AssetKeeper
+		up := strings.ToUpper(name)
+		if err := ak.AddAssetRecords(ctx, assettypes.Asset{Name: up, Denom: "u" + name, Decimals: sdk.NewInt(1_000_000), IsOnChain: true, IsOraclePriceRequired: false}); err != nil {
+			return err
+		}
+		if err := ak.AddAssetRecords(ctx, assettypes.Asset{Name: "C" + up, Denom: "uc" + name, Decimals: sdk.NewInt(1_000_000), IsOnChain: true, IsOraclePriceRequired: false}); err != nil {
+			return err
+		}
+		a, _ := ak.GetAssetForDenom(ctx, "u"+name)
+		ca, _ := ak.GetAssetForDenom(ctx, "uc"+name)
+		first, found := c.App.LendKeeper.GetPool(ctx, 1)
+		if !found {
+			return fmt.Errorf("no pool 1")
+		}
+		cap := sdk.NewDecFromInt(sdk.NewInt(1_000_000_000_000_000_000))
+		data := []*lendtypes.AssetDataPoolMapping{{AssetID: a.Id, AssetTransitType: 1, SupplyCap: cap}}
+		for _, d := range first.AssetData {
+			if d.AssetTransitType == 2 || d.AssetTransitType == 3 {
+				data = append(data, &lendtypes.AssetDataPoolMapping{AssetID: d.AssetID, AssetTransitType: d.AssetTransitType, SupplyCap: cap})
+			}
+		}
+		return c.App.LendKeeper.AddAssetRatesPoolPairs(ctx, lendtypes.AssetRatesPoolPairs{AssetID: a.Id, UOptimal: dec("0.7"), Base: dec("0.002"), Slope1: dec("0.07"), Slope2: dec("1.2"),
+			EnableStableBorrow: false, StableBase: dec("0"), StableSlope1: dec("0"), StableSlope2: dec("0"), Ltv: dec("0.6"), LiquidationThreshold: dec("0.65"), LiquidationPenalty: dec("0.05"), LiquidationBonus: dec("0.05"),
+			ReserveFactor: dec("0.2"), CAssetID: ca.Id, ModuleName: module, CPoolName: up + "-POOL", AssetData: data, MinUsdValueLeft: 100000, IsIsolated: false})
 	case "liq-generic-params":
 		app, err := strconv.ParseUint(rc.Args[0], 10, 64)
 		if err != nil {
